@@ -36,7 +36,7 @@ pub fn hist_case_strategy(tier: Tier, budget: f64) -> BoxedStrategy<HistCase> {
             while call_cost(&cfg) * calls > budget && cfg.chunk > 1 {
                 cfg.chunk = (cfg.chunk / 2).max(1);
             }
-            HistCase { cfg, seed, ops, envelope: true }
+            HistCase { cfg, seed, ops, envelope: std::env::var("RV_NO_ENVELOPE").is_err() }
         })
         .boxed()
 }
@@ -308,14 +308,14 @@ impl Property for HistProp {
         v
     }
     fn strategy(&self, tier: Tier) -> BoxedStrategy<HistCase> {
-        hist_case_strategy(tier, if tier.thorough() { 4e7 } else { 3e6 })
+        hist_case_strategy(tier, if tier.thorough() { 4e7 } else { 6e6 })
     }
     fn cases(&self, tier: Tier) -> u32 {
         match (self.0, tier) {
-            (Which::C09, Tier::Quick) => 10_000,
-            (_, Tier::Quick) => 20_000,
-            (Which::C09, Tier::Thorough) => 200_000,
-            (_, Tier::Thorough) => 500_000,
+            (Which::C09, Tier::Quick) => 60_000,
+            (_, Tier::Quick) => 120_000,
+            (Which::C09, Tier::Thorough) => 1_000_000,
+            (_, Tier::Thorough) => 3_000_000,
         }
     }
     fn run(&self, c: &HistCase) -> Outcome {
